@@ -146,14 +146,14 @@ CLAIMS["C16"] = dict(
          "line in order) and then call the same per-file scan function as a named file, only the reported name differs; the API's "
          "__build_common_arguments returns, position by position, the command-line spelling of the API object's state (all 96 paths); the "
          "--stack-trace flag only ever flows into what is put INTO an error message (structural data-flow obligation over all 18 reads); every "
-         "ParserLogger call has a literal format string, so enabling a log level cannot make a call fail (one obligation per logging function); "
+         "ParserLogger call has a literal format or passes no arguments, and ParserLogger logs argument-less messages verbatim, so enabling "
+         "a log level cannot make a call fail on document text (D11 fixed); "
          "the in-memory provider of scan_string / fix_string delivers exactly the text up to each newline and keeps exactly what follows "
          "it (InMemorySourceProvider against an assumed contract of str.split(sep, 1)), the line structure FileSourceProvider produces; "
          "fix_string spools exactly the given characters without newline translation, runs `fix <spool>` once through the common entry "
          "point, returns the text read back from that file untranslated and removes the spool on every exit (D18, D19 fixed); the "
          "stdin / scan_string spool is written as UTF-8, the encoding it is read back with (D20 fixed).",
-    note=TB + "Known finding D11: 200 logger calls in 54 functions interpolate token text into the format; at DEBUG level `fix` of a document "
-              "containing '$' fails. NOT covered: scan_path / fix_path / fix_string wrappers, OS newline translation ('\\r' is a line end for a file, "
+    note=TB + "NOT covered: scan_path / fix_path / fix_string wrappers, OS newline translation ('\\r' is a line end for a file, "
               "not for a string); the two providers are each proved against 'lines end at newline characters', their equality is the "
               "composition of the two contracts (on paper).")
 
